@@ -6,17 +6,26 @@ import sys, os, json, subprocess, time
 V = os.path.dirname(os.path.dirname(os.path.abspath(__file__)))
 ALL = ["C01","C02","C03","C04","C05","C06","C08","C11","C12","C13","C14","C15","C18"]
 def main():
+    scratch = "--scratch" in sys.argv      # use a scratch worktree + WENCRY_REPO instead of patching /repo (when /repo is in use)
+    if scratch:
+        sys.argv.remove("--scratch")
     sid = sys.argv[1]
     d = os.path.join(V, "seeded", sid)
     meta = json.load(open(os.path.join(d, "meta.json"))) if os.path.exists(os.path.join(d, "meta.json")) else {}
     props = sys.argv[2:] or ([meta.get("property")] if meta.get("property") else []) + [p for p in ALL if p != meta.get("property")]
-    st = subprocess.run(["git", "-C", "/repo", "status", "--porcelain"], capture_output=True, text=True).stdout.strip()
+    target = "/repo"
+    if scratch:
+        target = "/tmp/seedrun-" + sid
+        subprocess.run(["git", "-C", "/repo", "worktree", "add", "-q", "--detach", target, "HEAD"], check=True)
+    st = subprocess.run(["git", "-C", target, "status", "--porcelain"], capture_output=True, text=True).stdout.strip()
     if st:
-        print("refusing: /repo has local changes:\n" + st); return 2
-    r = subprocess.run(["git", "-C", "/repo", "apply", os.path.join(d, "patch.diff")], capture_output=True, text=True)
+        print("refusing: %s has local changes:\n" % target + st); return 2
+    r = subprocess.run(["git", "-C", target, "apply", os.path.join(d, "patch.diff")], capture_output=True, text=True)
     if r.returncode != 0:
         print("patch does not apply: " + r.stderr); return 2
-    env = dict(os.environ); env["VERIF_EVIDENCE_DIR"] = os.path.join(V, "out", "seeded-evidence"); env.setdefault("VERIF_WALL", "40")
+    env = dict(os.environ);
+    if scratch:
+        env["WENCRY_REPO"] = target env["VERIF_EVIDENCE_DIR"] = os.path.join(V, "out", "seeded-evidence"); env.setdefault("VERIF_WALL", "40")
     results = {}
     try:
         for p in props:
@@ -26,8 +35,12 @@ def main():
             results[p] = dict(exit=r.returncode, wall_s=round(time.time() - t0, 1), lines=[l[:300] for l in viol[:6]])
             print("%s %s: exit %d in %.0fs %s" % (sid, p, r.returncode, time.time() - t0, (viol[1][:160] if len(viol) > 1 else "")), flush=True)
     finally:
-        subprocess.run(["git", "-C", "/repo", "checkout", "--", "."], check=True)
-        subprocess.run(["git", "-C", "/repo", "clean", "-fdq", "--", "kernel", "valget"], check=False)
+        if scratch:
+            subprocess.run(["git", "-C", "/repo", "worktree", "remove", "--force", target], check=False)
+            subprocess.run("rm -rf /verif/build-alt-* /verif/out-alt-*", shell=True)
+        else:
+            subprocess.run(["git", "-C", "/repo", "checkout", "--", "."], check=True)
+            subprocess.run(["git", "-C", "/repo", "clean", "-fdq", "--", "kernel", "valget"], check=False)
     json.dump(results, open(os.path.join(d, "checks_result.json"), "w"), indent=1, sort_keys=True)
     return 0
 sys.exit(main())
